@@ -5,6 +5,7 @@ package syncer
 // half), C02, C07, C09.
 
 import (
+	"github.com/mgtv-tech/redis-GunYu/pkg/redis/checkpoint"
 	"context"
 	"strconv"
 	"time"
@@ -114,6 +115,7 @@ type verifSendRun struct {
 	fake     *verifFake
 	consumed int // items handed to the sender
 	err      error
+	seedReqs int // requests of the preceding full sync's checkpoint write (crashes inside it belong to C04)
 }
 
 // verifDrive runs the real sendCmdsBatch; a driver goroutine hands it, one at a
@@ -311,8 +313,9 @@ type verifResume struct {
 
 // verifRestart runs the real start-up path against the target state left by a
 // crash after the first p requests.
-func verifRestart(log []verifReq, p int, txnMode bool) verifResume {
+func verifRestart(log []verifReq, p int, txnMode bool, reverseDbOrder bool) verifResume {
 	nf := verifStateAfter(log, p)
+	nf.keyspaceReverse = reverseDbOrder
 	ro := verifNewOutput(txnMode, 1, nf)
 	ro.newRedisConn = func(context.Context) (client.Redis, error) { return nf, nil }
 	sp, err := ro.StartPoint(context.Background(), []string{"rid1"})
@@ -327,8 +330,10 @@ func verifRestart(log []verifReq, p int, txnMode bool) verifResume {
 func verifCheckC02(st *verifStream, run *verifSendRun, txnMode bool) {
 	log := run.fake.log
 	// which data items are durably applied after p requests
-	for p := 0; p <= len(log); p++ {
-		rs := verifRestart(log, p, txnMode)
+	for pp := 2 * run.seedReqs; pp <= 2*len(log)+1; pp++ {
+		// every crash prefix, and for each the restart visiting the target's databases in either order
+		p := pp / 2
+		rs := verifRestart(log, p, txnMode, pp%2 == 1)
 		if !rs.found {
 			// no usable position: the next start takes a full snapshot - nothing can be skipped
 			verifReach("c02.no-position")
@@ -473,8 +478,15 @@ func verifSender(txnMode bool) {
 		// byte limit below the size of a single write: every queued write reaches the size trigger
 		ro.cfg.BatchBufferSize = 5
 	}
-	run := verifDrive(ro, st, fake, txnMode, verifParam("TICKS", 1))
 	parts := verifParam("PARTS", 15) // 1 = C01, 2 = C07, 4 = C09, 8 = C02
+	seedReqs := 0
+	if parts&8 != 0 && verifChoose("afterFullSync", 2) == 1 {
+		// the run follows a completed full sync: its checkpoint (with a modification time) sits in DB 0
+		checkpoint.SetCheckpoint(fake, &checkpoint.CheckpointInfo{Key: "cp", RunId: "rid1", Version: "v", Offset: st.start})
+		seedReqs = len(fake.log)
+	}
+	run := verifDrive(ro, st, fake, txnMode, verifParam("TICKS", 1))
+	run.seedReqs = seedReqs
 	if parts&1 != 0 {
 		verifAssert(run.err == nil, "C01.sender.error-on-healthy-target")
 		verifCheckC01(st, run, txnMode)
